@@ -140,6 +140,17 @@ pub struct Interp {
     pub in_function: usize,
     /// arrays grown by push beyond this length end the reference run (outside the checked domain)
     pub max_len: usize,
+    /// every closure created, so that the environment <-> closure reference cycles can be cut when the
+    /// interpreter goes away (otherwise each run leaks its whole environment, arrays included)
+    closures: Vec<Rc<Closure>>,
+}
+
+impl Drop for Interp {
+    fn drop(&mut self) {
+        for c in self.closures.drain(..) {
+            *c.env.borrow_mut() = None;
+        }
+    }
 }
 
 pub fn to_val(v: &RV) -> Val {
@@ -248,6 +259,7 @@ impl Interp {
             branches_skipped: 0,
             in_function: 0,
             max_len: 4096,
+            closures: Vec::new(),
         }
     }
 
@@ -384,6 +396,7 @@ impl Interp {
     fn make_closure(&mut self, name: Option<&str>, ps: &[String], body: &[S], env: &Env) -> RV {
         let captured = capture(env);
         let clos = Rc::new(Closure { params: ps.to_vec(), body: Rc::new(body.to_vec()), env: RefCell::new(captured.clone()) });
+        self.closures.push(clos.clone());
         if let Some(n) = name {
             // the function's own name is visible in its body
             let with_self = extend(&captured, n, RV::Clos(clos.clone()), Kind::Local);
